@@ -430,7 +430,9 @@ static int mode_custom(long worker, long workers, long seed)
 		g_lastfail = o.fail_tape;
 		g_lastfail_msg = o.failmsg;
 		g_have_fail = true;
-		write_failure(false);
+		for (auto &kv : o.fail_params)
+			g_params[kv.first] = kv.second;
+		write_failure(o.fail_enumerating);
 		return 1;
 	}
 	return 0;
